@@ -16,7 +16,14 @@
 
 const CLOSE_DELAY_MS: i64 = 10_000; // "TIME-WAIT ends by itself after 10 s" (property text)
 
-/// every branch tag the model can report (coverage denominator)
+/// every branch tag the model can report AND that is reachable through this stream (coverage
+/// denominator).  Tags of the model that cannot occur here, with the reason:
+///   104+ACK (Panic arm), 140 (LISTEN,RST)        accepts() never hands such a segment to process()
+///   2120 2122 2124                               "payload not empty" exit of an empty-segment case
+///   192                                          payload taken in order while ack_to_transmit() is false
+///                                                needs remote_last_ack = None, i.e. a zero window
+///   206 (address removed), 221 (LISTEN dispatch) the interface keeps its address; LISTEN has no tuple
+///   300 301                                      unspecified address / port 0: never built by the frame builder
 fn all_tags() -> Vec<u32> {
     let mut v: Vec<u32> = vec![];
     v.extend(100..=116);
@@ -24,21 +31,19 @@ fn all_tags() -> Vec<u32> {
     for t in [120, 122, 124, 125, 127] {
         v.extend([t + 1000, t + 2000, t + 3000]);
     }
-    v.extend(140..=162);
+    v.extend(141..=162);
     v.extend(170..=173);
     v.extend(180..=188);
     v.extend(190..=191);
     for t in 192..=197 {
         v.extend([t, t + 10000]);
     }
-    v.extend(200..=206);
+    v.extend([200, 201, 202, 203, 205]);
     v.extend(210..=217);
     v.extend([220, 222, 223, 224, 225, 226, 227, 228]);
     v.extend(240..=246);
-    v.extend(300..=303);
-    // not reachable through this stream: 104+Some (panic arm), 221 (LISTEN has no tuple),
-    // 300/301 (unspecified address / port 0: the frame builder never produces them)
-    v.retain(|t| ![221, 300, 301].contains(t));
+    v.extend(302..=303);
+    v.retain(|t| ![2120, 2122, 2124, 192].contains(t));
     v
 }
 
